@@ -10,3 +10,5 @@ import (
 // without the hooks there is no introspection: coverage evidence about the
 // internal layout of the concurrent map is simply absent.
 func noteLayout[T comparable](c *core.Ctx, s *sync2.Set[T]) {}
+
+func layoutOfMap[K comparable, V any](m *sync2.Map[K, V]) string { return "" }
